@@ -26,13 +26,16 @@ META = {
  "C20": ("exhaustive enumeration N=1..512 x all names + closed-form differential over shape parameters (Hypothesis)", "4 C20"),
 }
 
+# properties whose check has been reviewed, run at >= 10 seeds and is quiet on the current tree
+READY = [l.strip() for l in open(os.path.join(HERE, "checks", "READY")) if l.strip() and not l.startswith("#")]
+
 def main():
     props = [json.loads(l) for l in open(os.path.join(HERE, "properties.jsonl"))]
     checks, na = [], []
     for p in props:
         pid = p["id"]
         tech, ref = META[pid]
-        if os.path.exists(os.path.join(HERE, "checks", pid.lower() + ".py")):
+        if pid in READY and os.path.exists(os.path.join(HERE, "checks", pid.lower() + ".py")):
             checks.append({
                 "property_id": pid,
                 "quick_cmd": "./vcheck %s --tier quick" % pid,
